@@ -31,8 +31,8 @@ def parseInstr (s : String) : String × List (String × Int) :=
       | [k, v] => (parseInt? v).map (fun i => (k, i))
       | _ => none))
 
-def resolveAll (instrs : List String) : Except String (List Node) :=
-  instrs.mapM (fun s => let (n, ops) := parseInstr s; resolve Gen.table n ops)
+def resolveAll (instrs : List String) (base : Nat := 0) : Except String (List Node) :=
+  instrs.mapM (fun s => let (n, ops) := parseInstr s; (resolve Gen.table n ops).map (withSlotNeed base n ops))
 
 def showState (a : AState) : String :=
   s!"h={a.1} markers={a.2.1.length} frames={a.2.2.length}"
@@ -52,7 +52,7 @@ def cmdVerify (mode : String) (unit : String) : String :=
   let endOk := mode != "0"
   let isFrame := mode != "1"
   let instrs := (unit.splitOn ";").filter (· ≠ "")
-  match resolveAll instrs with
+  match resolveAll instrs (if isFrame then 1 else 0) with
   | .error e => "error " ++ e
   | .ok code0 =>
     -- a function unit starts with the frame's `this` slot directly below the operands (stack[sb]); the preamble may
@@ -203,6 +203,66 @@ def cmdEmit (strict p : Bool) (toks : List String) : String :=
     let v := verify (nodes ++ tail) true
     " ".intercalate (flat.map (fun x => s!"{x.1}:{x.2.1}")) ++ s!" | {showHt (c.height (.live 0))} verify={v}"
 
+/-! statement token parser (prefix form, see run/c01.py SGen) -/
+
+partial def pOpt (present : Bool) : P (Option Expr) := do
+  if present then
+    let e ← pExpr
+    pure (some e)
+  else pure none
+
+mutual
+partial def pStmt : P Stmt := do
+  let t ← next
+  let f := t.splitOn ":"
+  let a (i : Nat) : String := f.getD i ""
+  if a 0 != "s" then throw ("statement token expected, got " ++ t) else
+  match a 1 with
+  | "expr" => do pure (.expr (← pExpr))
+  | "empty" => pure .empty
+  | "var0" => pure .varBare
+  | "var" => do let c ← need (idClass? (a 2)) "class"; pure (.varInit c (← pExpr))
+  | "block" => do pure (.block (← pStmts ((a 2).toNat?.getD 0)))
+  | "if" => do let c ← pExpr; pure (.ifS c (← pStmt))
+  | "ifelse" => do let c ← pExpr; let x ← pStmt; pure (.ifElse c x (← pStmt))
+  | "while" => do let c ← pExpr; pure (.whileS c (← pStmt))
+  | "do" => do let b ← pStmt; pure (.doWhile b (← pExpr))
+  | "for" => do
+      let i ← pOpt (bit (a 2) 0)
+      let c ← pOpt (bit (a 2) 1)
+      let u ← pOpt (bit (a 2) 2)
+      pure (.forS i c u (← pStmt))
+  | "ret0" => pure (.ret none)
+  | "ret" => do pure (.ret (some (← pExpr)))
+  | "throw" => do pure (.throwS (← pExpr))
+  | other => throw ("unknown statement token " ++ other)
+partial def pStmts : Nat → P Stmts
+  | 0 => pure .nil
+  | n + 1 => do let s ← pStmt; pure (.cons s (← pStmts n))
+end
+
+/-- `emits <strict> <nr> <stmt tokens>`: the statement is compiled as the middle one of the list
+`"@@1".m; S; <end marker>` exactly as the correspondence programs are laid out — with nr = 1 (program body,
+`needResult`) the end marker is `var zz = "@@2"` (empty result, so that S is the last value-producing statement), with
+nr = 0 (function body) it is `"@@2".m;`.  The three marker instructions at either end are stripped. -/
+def cmdEmitS (strict nr : Bool) (toks : List String) : String :=
+  match (pStmt.run toks) with
+  | .error e => "error " ++ e
+  | .ok (s, rest) =>
+    if !rest.isEmpty then "error trailing tokens" else
+    let cfg : Cfg := ⟨strict⟩
+    let m1 : Stmt := .expr (.dot (.lit (.str "@@1")) "m")
+    let m2 : Stmt := if nr then .varInit .global (.lit (.str "@@2")) else .expr (.dot (.lit (.str "@@2")) "m")
+    let c := emitBody cfg (.cons m1 (.cons s (.cons m2 .nil))) nr
+    let flat := c.flat
+    let mid := (flat.drop 3).take (flat.length - 6)
+    -- the whole body must also pass the proven verifier (names resolved through the regenerated table)
+    let nodes := flat.mapM (fun x => resolve Gen.table x.1 [("n", x.2.1)])
+    let v := match nodes with
+      | .ok ns => toString (verify ns true)
+      | .error e => "unresolved:" ++ e
+    " ".intercalate (mid.map (fun x => s!"{x.1}:{x.2.1}")) ++ s!" | {showHt (c.height (.live 0))} verify={v}"
+
 def cmdObs (instr : String) (dpc dsp : Int) : String :=
   let (n, ops) := parseInstr instr
   match resolve Gen.table n ops with
@@ -231,6 +291,7 @@ def step (line : String) : String :=
   match words line with
   | "verify" :: e :: rest => cmdVerify e (" ".intercalate rest)
   | "emit" :: s :: p :: toks => cmdEmit (b01 s) (b01 p) toks
+  | "emits" :: s :: nr :: toks => cmdEmitS (b01 s) (b01 nr) toks
   | ["obs", i, dpc, dsp] =>
     (match parseInt? dpc, parseInt? dsp with
      | some a, some b => cmdObs i a b
